@@ -59,7 +59,37 @@ def well_formed(units):
     return out
 
 
+def protocol_string(r):
+    """a string that cif_write can only carry in a text field with the prefix and / or line-folding protocol, or that sits on their
+    boundaries: lines beginning with ';', both quote kinds and both triple delimiters, a line longer than the limit (with / without a
+    blank to fold at), a trailing backslash, and — the case that once went wrong — a final newline, which makes the last physical line
+    of the field the bare prefix"""
+    BS = chr(92)
+    lines = []
+    for _ in range(r.choice([1, 2, 2, 3, 5])):
+        k = r.random()
+        if k < 0.3:
+            ln = ";" + r.choice(["", "x", " not a terminator", ";"])
+        elif k < 0.45:
+            ln = r.choice(["'''", '"""', "a'b" + '"c', "''' and " + '"""']) + r.choice(["", " z"])
+        elif k < 0.55:
+            ln = ("w" * r.choice([2040, 2047, 2048, 2049, 2100])) + r.choice(["", " tail", BS])
+        elif k < 0.65:
+            ln = " ".join("word%d" % i for i in range(r.choice([300, 420])))
+        elif k < 0.8:
+            ln = r.choice(["line" + BS, BS, "a " + BS + " b", "> ", ">", BS + BS])
+        else:
+            ln = r.choice(["", " ", "plain text", "x"])
+        lines.append(ln)
+    s = "\n".join(lines) + r.choice(["", "", "\n", "\n\n"])
+    if "\n;" not in s and "'''" not in s and not s.startswith(";"):
+        s = s + "\n;forced" + r.choice(["", "\n"])
+    return [ord(c) for c in s]
+
+
 def leaf(r, maxlen=600):
+    if r.random() < 0.12:
+        return ("C", 1, protocol_string(r))
     t = G.rand_leaf(r, maxlen)
     if t[0] == "M" and r.random() < 0.3:
         return ("M", t[1], G.units_of(r.choice(EXTREME_NUMBERS)))
